@@ -172,7 +172,7 @@ func traceAuth(out string, nTraces, blocks int) {
 		rng := hx.Rng(int64(t) + 4242)
 		s := chainsim.New(stdConfig(hx.Seed()*1000 + int64(t)))
 		r := chainsim.NewRecorder(s, tw)
-		r.Focus = []string{"h", "bal", "supply", "nopk", "badCoins"}
+		r.Focus = []string{"h", "bal", "supply", "nopk", "badCoins", "val", "app"}
 		members := []int{7, 8}
 		maddr := chainsim.MultiAddr([]posCrypto.PrivateKey{s.Keys[7], s.Keys[8]})
 		s.Names[maddr.String()] = "m1"
@@ -217,6 +217,10 @@ func traceAuth(out string, nTraces, blocks int) {
 				case funded && rng.Intn(5) == 0:
 					entropy++
 					tx = multiTx(s, rng, entropy, members)
+				case s.Height >= 3 && rng.Intn(5) == 0:
+					// (new-style node messages do not decode before the block after NCUST activation)
+					entropy++
+					tx = otherKindTx(s, rng, entropy)
 				default:
 					entropy++
 					tx = sendTx(s, rng, entropy)
